@@ -31,6 +31,14 @@ def h(t, part):
         w.s.manager = baton.Proxy(real_mgr, sched, 'mgr', skip=('_get_logger',))
         if part.get('eio_points', True):
             w.s.eio = baton.Proxy(real_eio, sched, 'eio')
+        if part.get('inner_points'):
+            # pre-emption also inside the manager: before every nested leave_room of basic_disconnect
+            inner = real_mgr.basic_leave_room
+
+            def leave(sid_, namespace, room, inner=inner):
+                sched.point('mgr-inner.basic_leave_room', args=(sid_,))
+                return inner(sid_, namespace, room)
+            real_mgr.basic_leave_room = leave
 
         def act(a):
             if a == 'server.disconnect':
@@ -119,13 +127,17 @@ def parts(tier):
     out = [dict(p, pre=[a, b, c], eio_points=(tier == 'thorough')) for p in out
            for a in (0, 1) for b in (0, 1) for c in (0, 1)]
     if tier == 'thorough':
+        main_pairs = [['server.disconnect', 'client-DISCONNECT'], ['server.disconnect', 'transport-loss'],
+                      ['client-DISCONNECT', 'transport-loss'], ['server.disconnect', 'server.disconnect']]
+        out += [dict(acts=p, pre=[a, b, c], eio_points=False, inner_points=True) for p in main_pairs
+                for a in (0, 1) for b in (0, 1) for c in (0, 1)]
         out.append({'acts': ['server.disconnect', 'client-DISCONNECT', 'transport-loss']})
         out.append({'acts': ['server.disconnect', 'transport-loss', 'other-namespace-disconnect']})
         out.append({'acts': ['server.disconnect', 'server.disconnect', 'client-DISCONNECT']})
     return out
 
 
-CHECKS = [dict(name='race', fn=h, parts=parts, budget={'quick': 80, 'thorough': 900}, per_path_s=30)]
+CHECKS = [dict(name='race', fn=h, parts=parts, budget={'quick': 180, 'thorough': 900}, per_path_s=30)]
 
 META = dict(
     explanation='Two (thorough: three) real threads run terminating actions on one session id of a real threaded Server; '
@@ -136,7 +148,8 @@ META = dict(
     bounds={'quick': 'all schedules of every pair from {server.disconnect, client DISCONNECT, transport loss} on the '
                      'same sid and of each with a disconnect of the transport\'s other namespace; pre-emption before '
                      'every manager call and inside the disconnect handler',
-            'thorough': 'plus pre-emption before every engine.io call, plus three triples of concurrent actions '
+            'thorough': 'plus pre-emption before every engine.io call, plus pre-emption inside manager.disconnect (before '
+                        'every nested leave_room), plus three triples of concurrent actions '
                         '(triples are budgeted, not exhausted)'},
     outside=['pre-emption inside manager methods (CPython-level atomicity of dict operations is assumed)',
              'more than three threads'],
